@@ -294,15 +294,21 @@ func c03Resolve(st c03Step, blk []byte) c03Wire {
 		// what the client perceives is not determined (RST may overtake
 		// data), so this never counts as "a 200 response was consumed"
 		w.mode, w.is200, w.rst = c03Raw, false, true
-		switch c03P(st, 0, 0) {
+		stage := c03Clamp(c03P(st, 0, 0), 0, 2)
+		if stage == 2 && n == 0 {
+			stage = 1 // a complete header for an empty block would be a complete, good response
+		}
+		switch stage {
 		case 0:
 			w.rst = c03P(st, 1, 0) == 1
 		case 1:
 			w.head = "HTTP/1.1 200 O"
 		default:
-			w.head, w.body = c03Head(int64(n), ""), blk[:c03Clamp(c03P(st, 1, 0), 0, n)]
+			// strictly fewer bytes than declared: whatever the client gets to
+			// see before the reset, it is never a complete response
+			w.head, w.body = c03Head(int64(n), ""), blk[:c03Clamp(c03P(st, 1, 0), 0, n-1)]
 		}
-		w.class = "reset" + strconv.Itoa(c03Clamp(c03P(st, 0, 0), 0, 2))
+		w.class = "reset" + strconv.Itoa(stage)
 	default:
 		w.status, w.body, w.is200 = 500, []byte("unknown step\n"), false
 	}
